@@ -690,6 +690,58 @@ theorem unusable_hooks_refuse (e : Env) (op : Op) (c : Cfg) (d : Durable) (hu : 
   rw [client_eq]
   simp [client, hb]
 
+/-! ### which webhooks are consulted -/
+
+/-- A webhook written without `certType`, or with `ALL`, is consulted for every request; one
+    written for the other certificate type is not.  (So a denying or failing webhook without
+    `certType` refuses the request: `fail_closed_at` applies to its events.) -/
+theorem unset_cert_type_consulted (ctl : CertT) (c : Cfg) :
+    c.consulted ctl .unset = c ∧ c.consulted ctl .all = c ∧ c.consulted .x509 .x509 = c ∧
+    c.consulted .ssh .ssh = c ∧ (c.consulted .x509 .ssh).e = 0 ∧ (c.consulted .ssh .x509).a = 0 := by
+  cases ctl <;> simp [Cfg.consulted, certTypeOK]
+
+/-- in a benign trace a failed attempt is repaired by a harmless one at the same kind of call -/
+theorem benign_repaired {l : List Ev} (h : benign l = true) {ev : Ev} (hm : ev ∈ l)
+    (hh : ev.harmless = false) : ∃ ev2 ∈ l, ev2.kind = ev.kind ∧ ev2.harmless = true := by
+  induction l using benign.induct with
+  | case1 => simp at hm
+  | case2 x =>
+    have hc : x.harmless = true := by simpa [benign] using h
+    simp at hm; subst hm; simp [hc] at hh
+  | case3 x x2 rest hc ih =>
+    simp only [benign, hc, if_true] at h
+    rcases List.mem_cons.mp hm with rfl | hm'
+    · simp [hc] at hh
+    · obtain ⟨e2, he2, hk⟩ := ih h hm'
+      exact ⟨e2, List.mem_cons_of_mem _ he2, hk⟩
+  | case4 x x2 rest hc ih =>
+    simp only [benign, hc, Bool.false_eq_true, if_false, Bool.and_eq_true, beq_iff_eq] at h
+    obtain ⟨⟨⟨⟨_, _⟩, hk⟩, ho⟩, hb⟩ := h
+    rcases List.mem_cons.mp hm with rfl | hm'
+    · exact ⟨x2, by simp, hk, ho⟩
+    · rcases List.mem_cons.mp hm' with rfl | hm''
+      · simp [ho] at hh
+      · obtain ⟨e2, he2, hk2⟩ := ih hb hm''
+        exact ⟨e2, List.mem_cons_of_mem _ (List.mem_cons_of_mem _ he2), hk2⟩
+
+/-- **standing_denial_refuses.** If an enriching or authorizing webhook was asked in the
+    request and no call to a webhook of that kind was answered `ok` (a standing denial or outage,
+    whatever the individual answers were), the client outcome is an error. -/
+theorem standing_denial_refuses (e : Env) (op : Op) (c : Cfg) (d : Durable) (ev : Ev)
+    (hm : ev ∈ (runOp e op c d).1.log) (hk : ev.kind = .enrich ∨ ev.kind = .authorize)
+    (hall : ∀ x ∈ (runOp e op c d).1.log, x.kind = ev.kind → x.out ≠ .ok) :
+    client op (runOp e op c d) = .error := by
+  apply Classical.byContradiction
+  intro hne
+  have hb := fail_closed e op c d hne
+  have hno : ev.harmless = false := by
+    have h1 := hall ev hm rfl
+    rcases hk with hk | hk <;> simp [Ev.harmless, hk, Kind.tolerated, h1]
+  obtain ⟨e2, he2, hk2, hh2⟩ := benign_repaired hb hm hno
+  have h2 := hall e2 he2 hk2
+  rcases hk with hk | hk <;>
+    simp [Ev.harmless, hk2, hk, Kind.tolerated, h2] at hh2
+
 /-! ### SCEP enrolment -/
 
 /-- a step changes the allow counter only by a challenge webhook that answered `ok` -/
@@ -1071,6 +1123,12 @@ theorem signers_store (c : Cfg) : ∀ p ∈ signerTable c, pending p.2 0 = 0 := 
   rcases hp with rfl | rfl | rfl | rfl | rfl | rfl <;>
     simp only [signX509Steps, signSSHSteps, renewContextSteps, authorizeRenewSteps, storeRenewedSteps, renewSSHSteps,
       rekeySSHSteps, signSSHAddUserSteps, pending_append, he, ha] <;> simp [pending, pendingStep]
+
+/-- every record-keeping function falls back to the local database after the linked-CA check
+    (order re-derived from the source on every run), and the nosql admin store takes over none of
+    the record-keeping methods -/
+theorem local_db_always_consulted :
+    storerOrder.all (fun p => p.2.getLast? == some "a.db") = true ∧ adminStoreMethods = [] := by decide
 
 /-- every SCEP message type that carries a certificate request has its challenge validated
     (both lists are re-derived from the source on every run) -/
